@@ -13,6 +13,7 @@ import Pog.Lemmas.Dc
   witness) + `_partial` / `_exact` (hypothesis = the excluded input class).
 
     1  rendered_defaults_last, render_order_defaults_last, render_order_is_identity, field_line_shape   full   (C01)
+    1b no_field_named_field, field_property_keeps_wire_key, field_shadow_former_witness                 full   (C01; F5 repaired)
     2  one_field_per_property, one_field_per_property_generated, mappings_are_the_wire_keys             full   (C02)
     3  required_iff_no_default, required_iff_no_default_generated                                       full   (C02)
     4  default_array, default_plain_object, default_absent, default_nonscalar, default_bool,
@@ -107,6 +108,60 @@ theorem field_line_shape (f : DcField) :
     fieldLine f = f.pyName ++ ": ".toList ++ f.pyType
       ++ (match f.default with | some d => " = ".toList ++ d | none => [])
       ++ (if (f.doc.getD []).isEmpty then [] else ' ' :: ' ' :: renderFieldComment (f.doc.getD [])) := rfl
+
+/-! ## 1b. no field rebinds `field` (C01; F5 repaired) -/
+
+/-- `Rec` (the former witness of F5): an optional property called `field` next to an array property. -/
+def recField : DcSchema :=
+  { name := some "Rec".toList, ty := some sObject,
+    props := [
+      { key := "field".toList, ty := some "string".toList, pyType := sStrOpt },
+      { key := "tags".toList, ty := some sArray, pyType := "List[str] | None".toList } ] }
+
+/-- FULL (F5 repaired): whatever the schema, no field of the class `generate` returns is called `field`.  The class body
+    is executed top to bottom and `name: T = default` REBINDS `name` for the statements after it; `field` is the one
+    lower-case name a later statement of the body calls (`field(default_factory=list)`), so an attribute of that name with
+    a default made the next factory default call its value (`TypeError: 'NoneType' object is not callable`).  Since the
+    repair the property asks for `field_` (`dcFieldBase`), and the collision loop only appends `_<n>`. -/
+theorem no_field_named_field (u : UInfo) (s : DcSchema) (b : Str) (out : DcOut) (h : generate u s b = .ok out) :
+    ∀ f ∈ out.fields, f.pyName ≠ "field".toList := by
+  obtain ⟨_, _, _, hfs, _, _, _, _⟩ := generate_ok_inv u s b out h
+  intro f hf
+  unfold fieldsData at hfs
+  split at hfs
+  · rw [← Option.some.inj hfs] at hf; cases hf
+  · rw [← Option.some.inj hfs] at hf
+    rw [List.mem_singleton.mp hf]
+    show sItems ≠ "field".toList
+    decide
+  · obtain ⟨names, hfn, _, hlen, hobj⟩ := objectFields_spec u s
+    rw [hobj] at hfs
+    have hnames := zipFields_pyName u s.required _ names hlen
+    rw [Option.some.inj hfs] at hnames
+    intro e
+    have : f.pyName ∈ names := hnames ▸ List.mem_map.mpr ⟨f, hf, rfl⟩
+    exact fieldNames_ne_field _ _ hfn (e ▸ this)
+  · rw [← Option.some.inj hfs] at hf; cases hf
+
+/-- The wire key is untouched: the renamed attribute is mapped from / to `field` in `Meta` (`field_mappings`), like every
+    other renamed property. -/
+theorem field_property_keeps_wire_key (p : Str) :
+    dcFieldBase p = if sanMethod p = "field".toList then "field_".toList else sanMethod p :=
+  dcFieldBase_eq p
+
+/-- The former witness of F5: the attribute is `field_`, the array default still calls `dataclasses.field`, and the
+    mapping keeps the wire key `field`. -/
+theorem field_shadow_former_witness :
+    (generate UInfo.ascii recField "Rec".toList).toOption.map
+        (fun o => (o.lines.map String.ofList, o.mappings.map (fun kv => (String.ofList kv.1, String.ofList kv.2))))
+      = some (["field_: str | None = None  # Maps from 'field'",
+               "tags: List[str] | None = field(default_factory=list)"],
+              [("field", "field_"), ("tags", "tags")]) := by decide
+
+/-- A property that already is `field_` (or `Field`, `FIELD`, `-field-`: everything `sanitize_method_name` maps to `field`)
+    asks for the same identifier; the collision loop separates them. -/
+example : fieldNames ["Field".toList, "field".toList, "field_".toList, "fields".toList]
+    = some ["field_".toList, "field__2".toList, "field__3".toList, "fields".toList] := by decide
 
 /-! ## 2. one field per property (C02) -/
 
